@@ -104,6 +104,23 @@ func registerSync(ip *Interp) {
 			return res
 		}}
 	})
+	// plain atomic functions on *uint32 / *int32 / *uint64 / *int64 (sequential)
+	for _, ty := range []string{"Uint32", "Int32", "Uint64", "Int64", "Uintptr"} {
+		ip.reg("sync/atomic.Load"+ty, func(ip *Interp, fr *frame, a []Value) Value { return ip.load(nil, a[0]) })
+		ip.reg("sync/atomic.Store"+ty, func(ip *Interp, fr *frame, a []Value) Value { ip.store(nil, a[0], a[1]); return nil })
+		ip.reg("sync/atomic.Add"+ty, func(ip *Interp, fr *frame, a []Value) Value {
+			n := ip.ctx.Bin(sym.OpAdd, ip.load(nil, a[0]).(*sym.Term), a[1].(*sym.Term))
+			ip.store(nil, a[0], n)
+			return n
+		})
+		ip.reg("sync/atomic.CompareAndSwap"+ty, func(ip *Interp, fr *frame, a []Value) Value {
+			if ip.truth(ip.ctx.Eq(ip.load(nil, a[0]).(*sym.Term), a[1].(*sym.Term))) {
+				ip.store(nil, a[0], a[2])
+				return ip.ctx.True
+			}
+			return ip.ctx.False
+		})
+	}
 	// atomic.Pointer[T]: struct{ _ [0]*T; _ noCopy; v unsafe.Pointer }
 	ip.reg("(*sync/atomic.Pointer).Load", func(ip *Interp, fr *frame, a []Value) Value {
 		s := (*a[0].(*Value)).(Struct)
